@@ -28,6 +28,8 @@ type mcWorld struct {
 	BeforeSend func(client, idx int)
 	// OnReconnect is called in the client's thread right after it re-dialled.
 	OnReconnect func(client int)
+	// Background, if set, runs as one more thread next to the clients.
+	Background  func(w *mcWorld)
 	Port        string
 	clients     []*sched.Client
 	Notes       []string
@@ -83,6 +85,9 @@ func (w *mcWorld) body() {
 			}
 			cl.Close()
 		})
+	}
+	if w.Background != nil {
+		vrt.Go("background", func() { w.Background(w) })
 	}
 	if w.AfterAll != nil {
 		vrt.WaitQuiet()
